@@ -729,6 +729,9 @@ def r13_3(prog, out):
             key2 = "id-source:%s:%s" % (label, prog.short(bid))
             if idx and nid is not None and nid in cells_of(prog, bi2, prog.receiver_origin(bi2, t.args[idx[0]])):
                 out.holds(key2, bi2.loc(bb2), "%s::new receives the manager's counter value" % key_ty)
+            elif idx and bi2.trace(t.args[idx[0]]).kind == "param" and (bi2.body.kind == "closure" or bi2.body.parent or nid is None):
+                out.undecided(key2, bi2.loc(bb2), "the internal id is handed to the constructing closure / function by its caller (a generic container that calls back): "
+                              "where it comes from is not followed through the callback")
             else:
                 s2 = sl.of(bid, t.args[idx[0]]) if idx else None
                 how = sorted(c.split("::")[-1] for c in s2.calls)[:4] if s2 else []
